@@ -18,3 +18,13 @@ Inductive xop :=
 | XCompute (n : string)        (* analysis that may raise; result held locally *)
 | XStore (n : string)          (* the held result of analysis n is added to the rule's store *)
 | XComputeStore (n : string).  (* analysis n computed and stored in one statement *)
+
+(* what a formatter of the output stage does with one field of a Violation (Gen/ContainOutGen.v: output_uses) *)
+Inductive uop :=
+| UAsIs              (* formatted into text, tested for truth, hashed: defined for every value *)
+| UStr               (* str(x): defined for every value *)
+| UJson              (* handed on to json.dumps as a value of the document *)
+| USanitize          (* _sanitize_string(x) = x.encode(...).decode(...): x must be a str *)
+| UStrMethod         (* x.split(...) and the like: x must be a str *)
+| UEnumName          (* x.name: x must be an enum member *)
+| UAddInt (k : nat). (* x + k: x must be a number *)
